@@ -46,3 +46,51 @@ def register(reg):
             "exactly-the-intersecting-nodes": "forall(lambda k: implies(0 <= k < len(node_list), (glo <= k < glo + len(result)) == hits(k)))",
         },
     ))
+
+
+IndexT = DictT(Key, ListT(INT))
+IN_ENTRY = ("lambda x, t: nodes[t] in ind_dict and exists(lambda m: 0 <= m < len(ind[ind_dict[nodes[t]]]) and ind[ind_dict[nodes[t]]][m] == x)")
+
+
+def register_selection(reg):
+    reg.add(Contract(
+        file=VIEW, func="get_unstable", params=dict(regions=ListT(STR), index=IndexT), returns=ListT(STR), trusted=True,
+        notes="caller view; view.search (the part that decides which nodes lie under a region) is verified separately; the glue is bounded",
+    ))
+    reg.add(Contract(
+        file=VIEW, func="run", variant="#select-offsets", fragment=("ind_key = sorted(", "if len(offsets) == 0"),
+        params=dict(ind=IndexT, nodes=ListT(STR), regions=ListT(STR)),
+        types=dict(KEY=Key, STR=STR, INT=INT), locals=dict(ind_dict=DictT(STR, Key), offsets=SetT(INT)),
+        spec_funcs={"in_entry": IN_ENTRY, "keyed": "lambda t: nodes[t] in ind_dict"},
+        requires=[
+            "len(regions) == 0",  # --node mode; --region composes get_unstable with this fragment (bounded stand-in)
+            # a view index (C03): one key per node id, no empty entry
+            "forall([KEY, KEY], lambda k1, k2: implies(k1 in ind and k2 in ind and k1[0] == k2[0], k1 == k2))",
+            "forall(KEY, lambda k: implies(k in ind, len(ind[k]) >= 1))",
+        ],
+        loops={
+            1: Loop(index="it1", seq_name="keyseq1", fingerprint="for i in ind_key", invariant={
+                "ids-map-to-their-key": "forall(STR, lambda s: implies(s in ind_dict, ind_dict[s] in ind and ind_dict[s][0] == s))",
+                "seen-keys-mapped": "forall(lambda t: implies(0 <= t < it1, keyseq1[t][0] in ind_dict))",
+            }),
+            2: Loop(index="it2", fingerprint="for nd in nodes", invariant={
+                "only-offsets-of-named-indexed-nodes": "forall(lambda x: implies(x in offsets, exists(lambda t: 0 <= t < it2 and in_entry(x, t))))",
+                "all-offsets-of-named-indexed-nodes": "forall(lambda t, m: implies(0 <= t < it2 and keyed(t) and 0 <= m < len(ind[ind_dict[nodes[t]]]), "
+                                                      "ind[ind_dict[nodes[t]]][m] in offsets))",
+            }),
+        },
+        assert_at={"before:offsets = set()": {
+            "every-indexed-node-is-mapped": "forall(KEY, lambda k: implies(k in ind, k[0] in ind_dict and ind_dict[k[0]] == k))",
+            "unindexed-nodes-unmapped": "forall(STR, lambda s: implies(s in ind_dict, ind_dict[s] in ind and ind_dict[s][0] == s))",
+        }},
+        ensures={
+            "strictly-increasing": "forall(lambda i, j: implies(0 <= i < j < len(offsets), offsets[i] < offsets[j]))",
+            "only-records-of-named-nodes": "forall(lambda i: implies(0 <= i < len(offsets), exists(lambda t: 0 <= t < len(nodes) and in_entry(offsets[i], t))))",
+            "every-record-of-a-named-node": "forall(lambda t, m: implies(0 <= t < len(nodes) and keyed(t) and 0 <= m < len(ind[ind_dict[nodes[t]]]), "
+                                            "exists(lambda i: 0 <= i < len(offsets) and offsets[i] == ind[ind_dict[nodes[t]]][m])))",
+            "unaligned-node-contributes-nothing": "forall(lambda t: implies(0 <= t < len(nodes), keyed(t) == exists(KEY, lambda k: k in ind and k[0] == nodes[t])))",
+        },
+        exc_ensures={"CommandLineError": {
+            "raised-only-when-no-named-node-has-alignments": "forall(lambda t: implies(0 <= t < len(nodes), not keyed(t)))",
+        }},
+    ))
